@@ -3,6 +3,10 @@ package main
 import (
 	"bytes"
 	"crypto"
+	"crypto/ecdsa"
+	"crypto/ed25519"
+	"crypto/elliptic"
+	"crypto/rand"
 	"crypto/rsa"
 	"crypto/sha256"
 	"crypto/x509"
@@ -11,6 +15,7 @@ import (
 	"encoding/binary"
 	"fmt"
 	"io"
+	"math/big"
 	"os"
 	"os/exec"
 	"path/filepath"
@@ -111,6 +116,87 @@ func signerOfKind(kind string, k *rsa.PrivateKey) crypto.Signer {
 	return k
 }
 
+// ---- signing certificates by WHO issued them ----
+// The property quantifies over any certificate. Besides the shapes of certShapes (self-signed, or issued by an RSA
+// CA with PKCS#1 v1.5), an RSA signing certificate can be issued by a CA whose key is of another kind, or signed
+// with another scheme: the certificate's own signatureAlgorithm (how the ISSUER signed the certificate) then says
+// nothing about the subject's key, which is what the SignerInfo's digestEncryptionAlgorithm has to describe.
+var c05IssuerKinds = []struct {
+	name string
+	alg  x509.SignatureAlgorithm
+}{
+	{"issued-by-ecdsa-p256-ca", x509.ECDSAWithSHA256},
+	{"issued-by-ecdsa-p384-ca/sha384", x509.ECDSAWithSHA384},
+	{"issued-by-ed25519-ca", x509.PureEd25519},
+	{"issued-by-rsa-ca/rsassa-pss", x509.SHA256WithRSAPSS},
+	{"self-signed/rsassa-pss", x509.SHA256WithRSAPSS},
+}
+
+func c05NShapes(c *Ctx) int { return len(certShapes(c)) + len(c05IssuerKinds) }
+
+var c05CAKeys = map[string]crypto.Signer{}
+
+// c05Cert: the certificate of shape idx for an RSA key: idx < len(certShapes) as everywhere in the harness, beyond
+// that an RSA leaf certificate under one of c05IssuerKinds
+func c05Cert(c *Ctx, key *rsa.PrivateKey, idx int) (*x509.Certificate, string) {
+	shapes := certShapes(c)
+	idx %= c05NShapes(c)
+	if idx < len(shapes) {
+		return makeRSACert(key, shapes[idx]), shapes[idx].desc
+	}
+	k := c05IssuerKinds[idx-len(shapes)]
+	certMu.Lock()
+	defer certMu.Unlock()
+	ck := fmt.Sprintf("%x/c05-issuer-kind/%s", key.N.Bytes()[:8], k.name)
+	if crt, ok := certCache[ck]; ok {
+		return crt, k.name
+	}
+	leaf := &x509.Certificate{SerialNumber: big.NewInt(int64(9100 + idx)), Subject: pkix.Name{CommonName: "RSA leaf " + k.name}, NotBefore: time.Unix(1700000000, 0), NotAfter: time.Unix(2000000000, 0),
+		KeyUsage: x509.KeyUsageDigitalSignature, BasicConstraintsValid: true, SignatureAlgorithm: k.alg}
+	parent := &x509.Certificate{SerialNumber: big.NewInt(1), Subject: pkix.Name{CommonName: "CA " + k.name, Organization: []string{"Verification"}}, NotBefore: time.Unix(1700000000, 0), NotAfter: time.Unix(2000000000, 0),
+		KeyUsage: x509.KeyUsageCertSign, BasicConstraintsValid: true, IsCA: true}
+	signer, have := c05CAKeys[k.name]
+	if !have {
+		switch {
+		case strings.HasPrefix(k.name, "self-signed"):
+			signer = key
+		case k.alg == x509.ECDSAWithSHA256:
+			ek, err := ecdsa.GenerateKey(elliptic.P256(), rand.Reader)
+			if err != nil {
+				panic(err)
+			}
+			signer = ek
+		case k.alg == x509.ECDSAWithSHA384:
+			ek, err := ecdsa.GenerateKey(elliptic.P384(), rand.Reader)
+			if err != nil {
+				panic(err)
+			}
+			signer = ek
+		case k.alg == x509.PureEd25519:
+			seed := sha256.Sum256([]byte("verif ed25519 CA"))
+			signer = ed25519.NewKeyFromSeed(seed[:])
+		default:
+			signer = poolKeyDir(c.VerifDir, 2048, 2)
+		}
+		if !strings.HasPrefix(k.name, "self-signed") {
+			c05CAKeys[k.name] = signer
+		}
+	}
+	if strings.HasPrefix(k.name, "self-signed") {
+		parent = leaf
+	}
+	der, err := x509.CreateCertificate(rand.Reader, leaf, parent, &key.PublicKey, signer)
+	if err != nil {
+		panic(err)
+	}
+	crt, err := x509.ParseCertificate(der)
+	if err != nil {
+		panic(err)
+	}
+	certCache[ck] = crt
+	return crt, k.name
+}
+
 func c05Eval(c *Ctx, cs Case) {
 	switch cs.S("op") {
 	case "sign-concurrent":
@@ -124,15 +210,13 @@ func c05Eval(c *Ctx, cs Case) {
 	content := unhx(cs.S("content"))
 	bits := int(cs.I("bits"))
 	rsaKey := poolKey(c, bits, int(cs.I("key")))
-	shapes := certShapes(c)
-	sh := shapes[int(cs.I("shape"))%len(shapes)]
-	cert := makeRSACert(rsaKey, sh)
+	cert, shDesc := c05Cert(c, rsaKey, int(cs.I("shape")))
 	kind := cs.S("signer")
 	if kind == "" {
 		kind = signerKinds[0]
 	}
 	key := signerOfKind(kind, rsaKey) // what the caller hands to SignPKCS7
-	cls := fmt.Sprintf("sign/%d/%s/len%s", bits, sh.desc, sizeClass(len(content)))
+	cls := fmt.Sprintf("sign/%d/%s/len%s", bits, shDesc, sizeClass(len(content)))
 	c.Class("signer-kind/" + kind)
 	c.Class("content-kind/" + derKindOf(content))
 	c.Count(cs.Key(), true, cls)
@@ -564,7 +648,6 @@ func c05Concurrent(c *Ctx, cs Case) {
 		return
 	}
 	bits := int(cs.I("bits"))
-	shapes := certShapes(c)
 	perKey := cs.I("perkey") == 1
 	kind := cs.S("signer")
 	c.Count(cs.Key(), true, fmt.Sprintf("sign-concurrent/goroutines=%d/rounds=%d/own-key-each=%v/%s", g, rounds, perKey, sizeClass(lens[0])))
@@ -585,7 +668,7 @@ func c05Concurrent(c *Ctx, cs Case) {
 			ki, si = (ki+i)%2, si+i
 		}
 		k := poolKey(c, bits, ki)
-		certs[i] = makeRSACert(k, shapes[si%len(shapes)])
+		certs[i], _ = c05Cert(c, k, si)
 		signers[i] = meetingSigner{signerOfKind(kind, k), m}
 		res[i] = make([]result, rounds)
 		for r := 0; r < rounds; r++ {
@@ -640,8 +723,7 @@ func c05Concurrent(c *Ctx, cs Case) {
 func c05Authenticode(c *Ctx, cs Case) {
 	bits := int(cs.I("bits"))
 	rsaKey := poolKey(c, bits, int(cs.I("key")))
-	shapes := certShapes(c)
-	cert := makeRSACert(rsaKey, shapes[int(cs.I("shape"))%len(shapes)])
+	cert, _ := c05Cert(c, rsaKey, int(cs.I("shape")))
 	kind := cs.S("signer")
 	data := detBytes(cs.S("salt"), int(cs.I("len")))
 	c.Count(cs.Key(), true, "sign-authenticode/len"+sizeClass(len(data)))
@@ -761,6 +843,7 @@ func c05Gen(c *Ctx) {
 		bitsets = []int{2048, 3072, 4096}
 	}
 	shapes := certShapes(c)
+	nsh := c05NShapes(c)
 	n := 0
 	haveOpenssl := opensslPath() != ""
 	c.Note("openssl", map[bool]string{true: "smime -verify -noverify run on detached data signatures of up to 1000 content octets", false: "not found: OpenSSL leg skipped"}[haveOpenssl])
@@ -771,7 +854,7 @@ func c05Gen(c *Ctx) {
 				n++
 				continue
 			}
-			cs := Case{"op": "sign", "oid": o, "content": hx(contentFor(c, o, l)), "bits": int64(bitsets[n%len(bitsets)]), "key": int64(n % 2), "shape": int64(n % len(shapes)),
+			cs := Case{"op": "sign", "oid": o, "content": hx(contentFor(c, o, l)), "bits": int64(bitsets[n%len(bitsets)]), "key": int64(n % 2), "shape": int64(n % nsh),
 				"signer": signerKinds[(n/2)%len(signerKinds)]}
 			if o == oids[0] && l <= 1000 && haveOpenssl {
 				cs["openssl"] = "smime -verify"
@@ -824,7 +907,7 @@ func c05Gen(c *Ctx) {
 			}
 		}
 		for _, o := range types {
-			cs := Case{"op": "sign", "oid": o, "content": hx(d.b), "contentkind": "der/" + d.name, "bits": int64(bitsets[n%len(bitsets)]), "key": int64(0), "shape": int64(n % len(shapes)),
+			cs := Case{"op": "sign", "oid": o, "content": hx(d.b), "contentkind": "der/" + d.name, "bits": int64(bitsets[n%len(bitsets)]), "key": int64(0), "shape": int64(n % nsh),
 				"signer": signerKinds[n%len(signerKinds)]}
 			if o == oids[0] && len(d.b) <= 1000 && haveOpenssl {
 				cs["openssl"] = "smime -verify"
@@ -836,10 +919,30 @@ func c05Gen(c *Ctx) {
 			}
 		}
 	}
+	// signing certificates by who issued them (c05IssuerKinds): an RSA leaf under an ECDSA P-256 / P-384 CA, under an
+	// Ed25519 CA, under an RSA CA that signs with RSASSA-PSS, and self-signed with RSASSA-PSS; each as detached data
+	// (given to the OpenSSL CLI as well when it exists) and as an attached non-data type, through SignPKCS7 and
+	// through SignAuthenticode
+	for i := range c05IssuerKinds {
+		shape := int64(len(shapes) + i)
+		for j, o := range []string{oids[0], oids[1+i%(len(oids)-1)]} {
+			cs := Case{"op": "sign", "oid": o, "content": hx(contentFor(c, o, []int{40, 300, 1}[(i+j)%3])), "bits": int64(bitsets[(i+j)%len(bitsets)]), "key": int64((i + j) % 2), "shape": shape,
+				"signer": signerKinds[(i+j)%len(signerKinds)]}
+			if j == 0 && haveOpenssl {
+				cs["openssl"] = "smime -verify"
+			}
+			c05Eval(c, cs)
+		}
+		c05Eval(c, Case{"op": "sign-authenticode", "len": int64(100 + i), "salt": fmt.Sprintf("authenticode-issuer-kind-%d-%d", c.Seed, i), "bits": int64(2048), "key": int64(i % 2),
+			"shape": shape, "signer": signerKinds[i%len(signerKinds)]})
+		if c.NFailures() >= 6 {
+			return
+		}
+	}
 	// the other producer: SignAuthenticode over streams of several lengths
 	for i, l := range []int{0, 1, 63, 64, 4096, 70000} {
 		c05Eval(c, Case{"op": "sign-authenticode", "len": int64(l), "salt": fmt.Sprintf("authenticode-%d-%d", c.Seed, i), "bits": int64(bitsets[i%len(bitsets)]), "key": int64(i % 2),
-			"shape": int64((i * 3) % len(shapes)), "signer": signerKinds[i%len(signerKinds)]})
+			"shape": int64((i * 3) % nsh), "signer": signerKinds[i%len(signerKinds)]})
 	}
 	// several calls in flight at the same time: 2, 4, 8 and 16 goroutines, large contents (64 KiB: hashing the content
 	// is where a call spends its time before it reaches the caller's signer), small ones and a mix, one key and
@@ -850,7 +953,7 @@ func c05Gen(c *Ctx) {
 				continue
 			}
 			c05Eval(c, Case{"op": "sign-concurrent", "oid": oids[(i+j)%2], "goroutines": int64(g), "rounds": int64(c.P(6, 24)), "lens": intsI(lens), "salt": fmt.Sprintf("concurrent-%d-%d-%d", c.Seed, i, j),
-				"bits": int64(2048), "key": int64(i % 2), "shape": int64((i + 4*j) % len(shapes)), "perkey": int64((i + j) % 2), "signer": signerKinds[[]int{0, 1, 3, 4}[(i+j)%4]]})
+				"bits": int64(2048), "key": int64(i % 2), "shape": int64((i + 4*j) % nsh), "perkey": int64((i + j) % 2), "signer": signerKinds[[]int{0, 1, 3, 4}[(i+j)%4]]})
 			if c.NFailures() >= 6 {
 				return
 			}
@@ -860,13 +963,13 @@ func c05Gen(c *Ctx) {
 		l := []int{0, 1, c.Rng.Intn(300), c.Rng.Intn(70000)}[c.Rng.Intn(4)]
 		o := oids[c.Rng.Intn(len(oids))]
 		c05Eval(c, Case{"op": "sign", "oid": o, "content": hx(contentFor(c, o, l)), "bits": int64(bitsets[c.Rng.Intn(len(bitsets))]),
-			"key": int64(c.Rng.Intn(2)), "shape": int64(c.Rng.Intn(len(shapes))), "signer": signerKinds[c.Rng.Intn(len(signerKinds))]})
+			"key": int64(c.Rng.Intn(2)), "shape": int64(c.Rng.Intn(nsh)), "signer": signerKinds[c.Rng.Intn(len(signerKinds))]})
 	}
 }
 
 func init() {
 	register("C05", &PropDef{
-		Rule:   "SignPKCS7 handed five kinds of caller-supplied crypto.Signer holding the same RSA key (*rsa.PrivateKey; a wrapper offering only Sign and Public; one that additionally offers SignMessage(rand, msg, opts) with message semantics, i.e. hashes msg itself like crypto.MessageSigner / token and KMS wrappers; one whose Public() returns the key by value instead of by pointer; a pointer-receiver holder whose Sign chooses PSS or PKCS#1 v1.5 from the options it is given), rotating over content types {data, SpcIndirectDataContent, 2.999.1234567.1, 0.39.16383.16384, signedData, and two enterprise OIDs of 14 and 38 content octets (signed attributes longer than 127 bytes)} x content lengths {0,1,2,127,128,255,256,1000,65535,65536,70000,random} x RSA 2048 (thorough: 3072, 4096) x 11 certificate shapes (9 self-signed and 2 CA-issued with issuer different from subject; short/long/multi-RDN/UTF-8 issuers; serials 1,127,128,255,256, high-bit, leading-zero source bytes, 20 bytes, 2^159). Contents that are themselves DER, each as data and (where a run of complete values) under a non-data type: exactly one complete value - a SEQUENCE of 0, 3, 127, 128, 300 and 70000 content octets, a SEQUENCE in a SEQUENCE, a SET, an OCTET STRING, a certificate, a SignedData made by the library (a signature over a signature) -, two SEQUENCEs, and near misses (a SEQUENCE followed by one byte, a SEQUENCE header announcing more than follows, a non-minimal length). authenticode.SignAuthenticode over streams of 0, 1, 63, 64, 4096 and 70000 bytes (the encapsulated SpcIndirectDataContent located with encoding/asn1 must carry the SHA-256 of the stream, and the blob is judged as SignPKCS7's for that content). Concurrent use: 2, 4, 8 and 16 goroutines x 6 calls each [thorough: 24] with contents of 64 KiB / mixed 64 KiB, 1, 70000, 300 / 0 and 17 bytes, one key and certificate for all or one per goroutine, through a caller-supplied crypto.Signer that holds every Sign call until the Sign calls of all running goroutines have arrived (so all calls are inside SignPKCS7 together and the next calls hash their contents at the same moment); each call must return what it returns alone: every blob is judged against the content of ITS call by all Go-side oracles, one per goroutine also by the Lean models. Each blob is checked, with encoding/asn1 alone, for every clause of the statement (signedData; SHA-256 as digest algorithm of SignedData and signer entry; content type; attached content = one SEQUENCE holding exactly the supplied content / detached = none; the certificate embedded; one signer entry naming issuer and serial; RSA; signed contentType, signingTime and messageDigest = SHA-256 of the SUPPLIED content), detached data signatures of up to 1000 octets are given to openssl smime -verify with the content and with different content when the CLI exists; each blob is checked for strict DER (minimal lengths, SET OF order) by an independent walker, verified by the library, by an encoding/asn1+crypto/rsa verifier, by go.mozilla.org/pkcs7 and by the Lean Spec, with the right and with different content, and reproduced byte for byte by the Lean builder model. Every case is non-trivial; distinct = distinct (oid, content, key, shape, signer kind) resp. distinct concurrent schedule / stream.",
+		Rule:   "SignPKCS7 handed five kinds of caller-supplied crypto.Signer holding the same RSA key (*rsa.PrivateKey; a wrapper offering only Sign and Public; one that additionally offers SignMessage(rand, msg, opts) with message semantics, i.e. hashes msg itself like crypto.MessageSigner / token and KMS wrappers; one whose Public() returns the key by value instead of by pointer; a pointer-receiver holder whose Sign chooses PSS or PKCS#1 v1.5 from the options it is given), rotating over content types {data, SpcIndirectDataContent, 2.999.1234567.1, 0.39.16383.16384, signedData, and two enterprise OIDs of 14 and 38 content octets (signed attributes longer than 127 bytes)} x content lengths {0,1,2,127,128,255,256,1000,65535,65536,70000,random} x RSA 2048 (thorough: 3072, 4096) x 21 certificates (the 16 shapes of the harness: self-signed and issued by an RSA CA with issuer different from subject; short/long/multi-RDN/UTF-8/hand-encoded issuers; serials 1,127,128,255,256, high-bit, leading-zero source bytes, 20 bytes, 2^159; the certificate itself signed with SHA-256/384/512; and 5 by WHO issued them: an RSA signing certificate issued by an ECDSA P-256 CA, by an ECDSA P-384 CA with SHA-384, by an Ed25519 CA, by an RSA CA signing with RSASSA-PSS, and self-signed with RSASSA-PSS - the certificate's own signatureAlgorithm then differs from the kind of the subject's key, which is what the SignerInfo's digestEncryptionAlgorithm has to describe: rsaEncryption / sha256WithRSAEncryption, read off the blob with encoding/asn1, and go.mozilla.org/pkcs7 and OpenSSL verify by that field; each of the five runs as detached data [OpenSSL CLI too], as an attached non-data type and through SignAuthenticode, and in the rotation). Contents that are themselves DER, each as data and (where a run of complete values) under a non-data type: exactly one complete value - a SEQUENCE of 0, 3, 127, 128, 300 and 70000 content octets, a SEQUENCE in a SEQUENCE, a SET, an OCTET STRING, a certificate, a SignedData made by the library (a signature over a signature) -, two SEQUENCEs, and near misses (a SEQUENCE followed by one byte, a SEQUENCE header announcing more than follows, a non-minimal length). authenticode.SignAuthenticode over streams of 0, 1, 63, 64, 4096 and 70000 bytes (the encapsulated SpcIndirectDataContent located with encoding/asn1 must carry the SHA-256 of the stream, and the blob is judged as SignPKCS7's for that content). Concurrent use: 2, 4, 8 and 16 goroutines x 6 calls each [thorough: 24] with contents of 64 KiB / mixed 64 KiB, 1, 70000, 300 / 0 and 17 bytes, one key and certificate for all or one per goroutine, through a caller-supplied crypto.Signer that holds every Sign call until the Sign calls of all running goroutines have arrived (so all calls are inside SignPKCS7 together and the next calls hash their contents at the same moment); each call must return what it returns alone: every blob is judged against the content of ITS call by all Go-side oracles, one per goroutine also by the Lean models. Each blob is checked, with encoding/asn1 alone, for every clause of the statement (signedData; SHA-256 as digest algorithm of SignedData and signer entry; content type; attached content = one SEQUENCE holding exactly the supplied content / detached = none; the certificate embedded; one signer entry naming issuer and serial; RSA; signed contentType, signingTime and messageDigest = SHA-256 of the SUPPLIED content), detached data signatures of up to 1000 octets are given to openssl smime -verify with the content and with different content when the CLI exists; each blob is checked for strict DER (minimal lengths, SET OF order) by an independent walker, verified by the library, by an encoding/asn1+crypto/rsa verifier, by go.mozilla.org/pkcs7 and by the Lean Spec, with the right and with different content, and reproduced byte for byte by the Lean builder model. Every case is non-trivial; distinct = distinct (oid, content, key, shape, signer kind) resp. distinct concurrent schedule / stream.",
 		Assume: []string{"RSA PKCS#1 v1.5 signing is deterministic, so the builder model is given the signature and the signing time read back from the blob", "x509.ParseCertificates is opaque (its verdict is handed to the model)"},
 		Eval:   c05Eval, Gen: c05Gen,
 	})
